@@ -492,9 +492,10 @@ Section TrackerCb.
   Proof. intros E. unfold trkc_cleanup. now rewrite E. Qed.
 
   (* ---------------------------------------------------------------- one step *)
-  Theorem step_sinv (en : env) (st : tracker) op : sinv st -> sinv (rc_state (trkc_step nattrs en st op)).
+  Theorem step_sinv (en : env) (st : tracker) op : sinv st -> op_ok nattrs st op ->
+    sinv (rc_state (trkc_step nattrs en st op)).
   Proof.
-    intros I. destruct op as [now msg ts|now|m|ev cb|ev cb|newttl|]; simpl.
+    intros I OKop. destruct op as [now msg ts|now|m|ev cb|ev cb|now msg ts|newttl|]; simpl.
     - destruct (update_c en st now msg ts I) as [[_ E]|(_ & I2 & E)]; rewrite E; [exact I|].
       destruct (snd (brkc_propagate en (t_broker st) _ _)); simpl; [|now apply sinv_raised_insert].
       apply cleanup_c_sinv. now apply sinv_after_insert.
@@ -503,6 +504,11 @@ Section TrackerCb.
         [now apply sinv_without | assumption].
     - now apply (sinv_same st).
     - now apply (sinv_same st).
+    - destruct (msg_to_track_facts nattrs msg ts now) as (Fm & _ & Fl).
+      assert (I2 : sinv (inserted st (m_mmsi msg) (trk_msg_to_track nattrs msg ts now))) by now apply sinv_inserted.
+      destruct (insert_or_update_c en st (m_mmsi msg) (trk_msg_to_track nattrs msg ts now) (s_nodup _ I)) as [[_ E]|[_ E]];
+        rewrite E; simpl; [exact I|].
+      destruct (snd (brkc_propagate en (t_broker st) _ _)); [now apply sinv_after_insert | now apply sinv_raised_insert].
     - now apply (sinv_same st).
     - destruct I as [A B C D]. constructor; simpl; auto. discriminate.
   Qed.
@@ -533,11 +539,11 @@ Section TrackerCb.
   Qed.
 
   (* the full invariant -- structure AND cache -- survives every operation, whatever the subscribers do *)
-  Theorem step_inv (en : env) (st : tracker) op : inv nattrs st -> env_ok en ->
+  Theorem step_inv (en : env) (st : tracker) op : inv nattrs st -> env_ok en -> op_ok nattrs st op ->
     inv nattrs (rc_state (trkc_step nattrs en st op)).
   Proof.
-    intros I0 OK. pose proof (proj1 (inv_split st) I0) as [I O]. apply inv_split. split; [now apply step_sinv|].
-    destruct op as [now msg ts|now|m|ev cb|ev cb|newttl|]; simpl in *.
+    intros I0 OK OKop. pose proof (proj1 (inv_split st) I0) as [I O]. apply inv_split. split; [now apply step_sinv|].
+    destruct op as [now msg ts|now|m|ev cb|ev cb|now msg ts|newttl|]; simpl in *.
     - destruct (update_c en st now msg ts I) as [[_ E]|(NR & I2 & E)]; rewrite E in *; [exact O|].
       destruct (msg_to_track_facts nattrs msg ts now) as (Fm & _ & Fl).
       destruct (snd (brkc_propagate en (t_broker st) _ _)); simpl in *.
@@ -550,6 +556,13 @@ Section TrackerCb.
         [now apply oinv_without | assumption].
     - exact O.
     - exact O.
+    - destruct (msg_to_track_facts nattrs msg ts now) as (Fm & _ & Fl).
+      destruct (insert_or_update_c en st (m_mmsi msg) (trk_msg_to_track nattrs msg ts now) (s_nodup _ I)) as [[_ E]|[NR E]];
+        rewrite E; simpl; [exact O|].
+      destruct (snd (brkc_propagate en (t_broker st) _ _)).
+      + assert (IA : inv nattrs (after_insert st (m_mmsi msg) (trk_msg_to_track nattrs msg ts now))) by now apply inv_after_insert.
+        apply inv_split in IA. tauto.
+      + apply oinv_raised_insert; auto. intros [X|X]; tauto.
     - exact O.
     - exact O.
   Qed.
@@ -557,7 +570,8 @@ Section TrackerCb.
   (* every state: after any history, whatever the subscribers did (returned, raised, left operations half way) *)
   Inductive reachable_any : tracker -> Prop :=
   | reach_any_init ttl ordered : reachable_any (trk_init ttl ordered)
-  | reach_any_step en st op : reachable_any st -> env_ok en -> reachable_any (rc_state (trkc_step nattrs en st op)).
+  | reach_any_step en st op : reachable_any st -> env_ok en -> op_ok nattrs st op ->
+                              reachable_any (rc_state (trkc_step nattrs en st op)).
 
   Lemma reachable_any_inv st : reachable_any st -> inv nattrs st.
   Proof. induction 1; [apply inv_init | now apply step_inv]. Qed.
@@ -570,7 +584,7 @@ Section TrackerCb.
     t_ordered (rc_state (trkc_step nattrs en st op)) = sp_mode (t_ordered st) (abs_op op) /\
     t_ttl (rc_state (trkc_step nattrs en st op)) = sp_ttl_after (t_ttl st) (abs_op op).
   Proof.
-    intros I. destruct op as [now msg ts|now|m1|ev cb|ev cb|newttl|]; simpl; auto.
+    intros I. destruct op as [now msg ts|now|m1|ev cb|ev cb|now msg ts|newttl|]; simpl; auto.
     - destruct (update_c en st now msg ts I) as [[_ E]|(_ & I2 & E)]; rewrite E; simpl; [auto|].
       destruct (after_insert_cfg st (m_mmsi msg) (trk_msg_to_track nattrs msg ts now)) as (A & B & _).
       destruct (snd (brkc_propagate en (t_broker st) _ _)); simpl.
@@ -578,6 +592,11 @@ Section TrackerCb.
       destruct (cleanup_c_cfg en _ now (sinv_after_insert _ _ _ I2)) as (X & Y & _). rewrite X, Y. auto.
     - destruct (cleanup_c_cfg en st now I) as (X & Y & _). auto.
     - pose proof (pop_track_c en st m1 (s_nodup _ I)) as P. destruct (idict_get (t_tracks st) m1); simpl in P; rewrite P; simpl; auto.
+    - destruct (insert_or_update_c en st (m_mmsi msg) (trk_msg_to_track nattrs msg ts now) (s_nodup _ I)) as [[_ E]|[_ E]];
+        rewrite E; simpl; [auto|].
+      destruct (after_insert_cfg st (m_mmsi msg) (trk_msg_to_track nattrs msg ts now)) as (A & B & _).
+      destruct (snd (brkc_propagate en (t_broker st) _ _)); [rewrite A, B; auto|].
+      unfold raised_insert. destruct (idict_mem (t_tracks st) (m_mmsi msg)); [simpl; auto | rewrite A, B; auto].
   Qed.
 
   (* ================================================================================= 4. C13 *)
@@ -636,7 +655,9 @@ Section TrackerCb.
     Forall (fun lu => T <= now - lu) (deleted_lus (rc_calls (trkc_step nattrs en st op))) /\
     inv nattrs (rc_state (trkc_step nattrs en st op)).
   Proof.
-    intros R OK ET Hop. split; [|apply step_inv; [now apply reachable_any_inv | assumption]]. apply reachable_any_sinv in R.
+    intros R OK ET Hop. split.
+    2:{ apply step_inv; [now apply reachable_any_inv | assumption|]. destruct Hop as [->|(msg & ts & ->)]; exact Logic.I. }
+    apply reachable_any_sinv in R.
     destruct Hop as [->|(msg & ts & ->)]; simpl.
     - apply deleted_lus_all. now apply cleanup_removed_expired.
     - destruct (update_c en st now msg ts R) as [[_ E]|(NR & I2 & E)]; rewrite E; simpl; [constructor|].
@@ -655,7 +676,7 @@ Section TrackerCb.
     incl (keys (t_tracks st)) (keys (t_tracks (rc_state (trkc_step nattrs en st op)))).
   Proof.
     intros R ET NP. apply reachable_any_sinv in R.
-    destruct op as [now msg ts|now|m|ev cb|ev cb|newttl|]; simpl.
+    destruct op as [now msg ts|now|m|ev cb|ev cb|now msg ts|newttl|]; simpl.
     - destruct (update_c en st now msg ts R) as [[_ E]|(_ & I2 & E)]; rewrite E; simpl.
       + split; [reflexivity | apply incl_refl].
       + destruct (after_insert_cfg st (m_mmsi msg) (trk_msg_to_track nattrs msg ts now)) as (Ettl & _ & _ & Etr).
@@ -674,6 +695,18 @@ Section TrackerCb.
     - exfalso. now apply (NP m).
     - split; [reflexivity | apply incl_refl].
     - split; [reflexivity | apply incl_refl].
+    - destruct (insert_or_update_c en st (m_mmsi msg) (trk_msg_to_track nattrs msg ts now) (s_nodup _ R)) as [[_ E]|[_ E]];
+        rewrite E; simpl; [split; [reflexivity | apply incl_refl]|].
+      unfold deleted_mmsis. simpl. rewrite upd_event_not_deleted. split; [reflexivity|].
+      assert (KS : incl (keys (t_tracks st))
+                     (keys (without (Z.eqb (m_mmsi msg)) (t_tracks st) ++
+                            [(m_mmsi msg, upd_result st (m_mmsi msg) (trk_msg_to_track nattrs msg ts now))]))).
+      { rewrite keys_app, keys_without. simpl. intros k Ik. apply in_or_app.
+        destruct (Z.eqb_spec (m_mmsi msg) k) as [->|N]; [right; now left | left].
+        apply filter_In. split; [assumption|]. apply negb_true_iff. now apply Z.eqb_neq. }
+      destruct (snd (brkc_propagate en (t_broker st) _ _)).
+      + now destruct (after_insert_cfg st (m_mmsi msg) (trk_msg_to_track nattrs msg ts now)) as (_ & _ & _ & ->).
+      + now rewrite raised_insert_tracks.
     - split; [reflexivity | apply incl_refl].
     - split; [reflexivity | apply incl_refl].
   Qed.
@@ -734,7 +767,7 @@ Section TrackerCb.
      afterwards, if a subscriber does) *)
   Definition step_target_c (op : trk_op V) (res : result) : option Z :=
     match op with
-    | OpUpdate _ msg _ => match rc_calls res with [] => None | _ => Some (m_mmsi msg) end
+    | OpUpdate _ msg _ | OpInsertOrUpdate _ msg _ => match rc_calls res with [] => None | _ => Some (m_mmsi msg) end
     | _ => None
     end.
 
@@ -747,7 +780,7 @@ Section TrackerCb.
   Proof.
     intros I. rewrite events_of_calls.
     assert (SAME : forall b, [] = sp_expected_events None m b b) by (intros []; reflexivity).
-    destruct op as [now msg ts|now|m1|ev cb|ev cb|newttl|]; simpl.
+    destruct op as [now msg ts|now|m1|ev cb|ev cb|now msg ts|newttl|]; simpl.
     - destruct (update_c en st now msg ts I) as [[_ E]|(_ & I2 & E)]; rewrite E; simpl; [split; [apply SAME | auto]|].
       set (m0 := m_mmsi msg) in *. set (new := trk_msg_to_track nattrs msg ts now) in *.
       destruct (upd_result_facts_s st m0 new I) as (Rm & _);
@@ -778,6 +811,22 @@ Section TrackerCb.
       + split; [apply SAME | auto].
     - split; [apply SAME | auto].
     - split; [apply SAME | auto].
+    - set (m0 := m_mmsi msg). set (new := trk_msg_to_track nattrs msg ts now).
+      destruct (insert_or_update_c en st m0 new (s_nodup _ I)) as [[_ E]|[_ E]]; rewrite E; simpl; [split; [apply SAME | auto]|].
+      destruct (upd_result_facts_s st m0 new I) as (Rm & _);
+        [apply (msg_to_track_facts nattrs msg ts now) | apply (msg_to_track_facts nattrs msg ts now)|].
+      assert (M2 : idict_mem (without (Z.eqb m0) (t_tracks st) ++ [(m0, upd_result st m0 new)]) m
+                   = (m =? m0) || idict_mem (t_tracks st) m).
+      { unfold idict_mem. rewrite get_app_single, get_without, (Z.eqb_sym m0 m).
+        destruct (m =? m0); simpl; [reflexivity|]. destruct (idict_get (t_tracks st) m); reflexivity. }
+      assert (TR : t_tracks (match snd (brkc_propagate en (t_broker st) (upd_result st m0 new) (upd_event st m0)) with
+                             | CbReturn => after_insert st m0 new | CbRaise _ => raised_insert st m0 new end)
+                   = without (Z.eqb m0) (t_tracks st) ++ [(m0, upd_result st m0 new)]).
+      { destruct (snd (brkc_propagate en (t_broker st) _ _)); [|apply raised_insert_tracks].
+        now destruct (after_insert_cfg st m0 new) as (_ & _ & _ & ->). }
+      rewrite TR, Rm, M2. destruct (Z.eqb_spec m m0) as [->|N]; simpl.
+      + split; [|congruence]. unfold upd_event. destruct (idict_mem (t_tracks st) m0); reflexivity.
+      + split; [|auto]. destruct (idict_mem (t_tracks st) m); reflexivity.
     - split; [apply SAME | auto].
     - split; [apply SAME | auto].
   Qed.
@@ -786,33 +835,51 @@ Section TrackerCb.
   Definition run_events_c (results : list result) : list (sp_event * Z) :=
     flat_map (fun r => abs_calls (rc_calls r)) results.
 
-  Lemma run_alive_c m : forall (h : list (env * trk_op V)) (st : tracker) trace0, sinv st ->
+  (* a history that respects the ordered-mode caveat of insert_or_update() at every step, and whose environments
+     enumerate the set of expired MMSIs (`run_ok` is True for histories without insert_or_update() whose environments are
+     built by `trk_env_of` / `trk_env_quiet`) *)
+  Fixpoint trkc_run_ok (st : tracker) (h : list (env * trk_op V)) : Prop :=
+    match h with
+    | [] => True
+    | (en, op) :: r => env_ok en /\ op_ok nattrs st op /\ trkc_run_ok (rc_state (trkc_step nattrs en st op)) r
+    end.
+
+  Lemma runc_ok_without_insert : forall (h : list (env * trk_op V)) (st : tracker),
+    (forall x, In x h -> env_ok (fst x)) -> (forall en now msg ts, ~ In (en, OpInsertOrUpdate now msg ts) h) -> trkc_run_ok st h.
+  Proof.
+    induction h as [|[en op] r IH]; intros st E N; simpl; [exact Logic.I|]. split; [apply (E (en, op)); now left|]. split.
+    - destruct op; try exact Logic.I. exfalso. apply (N en now decoded ts_epoch_ms). now left.
+    - apply IH; [intros x I; apply E; now right | intros en' now msg ts I; apply (N en' now msg ts); now right].
+  Qed.
+
+  Lemma run_alive_c m : forall (h : list (env * trk_op V)) (st : tracker) trace0, sinv st -> trkc_run_ok st h ->
     sp_alive m trace0 = Some (idict_mem (t_tracks st) m) ->
     sp_alive m (trace0 ++ run_events_c (snd (trkc_run nattrs st h))) =
       Some (idict_mem (t_tracks (fst (trkc_run nattrs st h))) m).
   Proof.
-    induction h as [|[en op] r IH]; intros st trace0 I A; simpl.
+    induction h as [|[en op] r IH]; intros st trace0 I OK A; simpl.
     - now rewrite app_nil_r.
-    - destruct (trkc_run nattrs (rc_state (trkc_step nattrs en st op)) r) as [st' rs] eqn:ER. simpl.
+    - destruct OK as (_ & OK1 & OK2).
+      destruct (trkc_run nattrs (rc_state (trkc_step nattrs en st op)) r) as [st' rs] eqn:ER. simpl.
       rewrite app_assoc.
       specialize (IH (rc_state (trkc_step nattrs en st op)) (trace0 ++ abs_calls (rc_calls (trkc_step nattrs en st op)))).
-      rewrite ER in IH. simpl in IH. apply IH; [now apply step_sinv|].
+      rewrite ER in IH. simpl in IH. apply IH; [now apply step_sinv | assumption|].
       unfold sp_alive in *. rewrite events_of_app, auto_run_app, A.
       destruct (step_events_c en st op m I) as (E & K). rewrite E. now apply expected_run.
   Qed.
 
   (* C15: whatever the subscribers do, the propagate calls of every MMSI stay in (CREATED UPDATED* DELETED)* and
      "alive" = "has a track" *)
-  Theorem events_lifecycle_c ttl ordered (h : list (env * trk_op V)) m :
+  Theorem events_lifecycle_c ttl ordered (h : list (env * trk_op V)) m : trkc_run_ok (trk_init ttl ordered) h ->
     sp_alive m (run_events_c (snd (trkc_run nattrs (trk_init ttl ordered) h))) =
       Some (idict_mem (t_tracks (fst (trkc_run nattrs (trk_init ttl ordered) h))) m).
-  Proof. apply (run_alive_c m h (trk_init ttl ordered) []); [apply sinv_init | reflexivity]. Qed.
+  Proof. intros OK. apply (run_alive_c m h (trk_init ttl ordered) []); [apply sinv_init | assumption | reflexivity]. Qed.
 
   Lemma run_reachable_any : forall (h : list (env * trk_op V)) (st : tracker),
-    Forall (fun x => env_ok (fst x)) h -> reachable_any st -> reachable_any (fst (trkc_run nattrs st h)).
+    trkc_run_ok st h -> reachable_any st -> reachable_any (fst (trkc_run nattrs st h)).
   Proof.
-    induction h as [|[en op] r IH]; intros st F R; simpl; [assumption|]. inversion F as [|? ? F1 F2]; subst.
-    specialize (IH _ F2 (reach_any_step en st op R F1)).
+    induction h as [|[en op] r IH]; intros st F R; simpl; [assumption|]. destruct F as (F1 & F2 & F3).
+    specialize (IH _ F3 (reach_any_step en st op R F1 F2)).
     destruct (trkc_run nattrs (rc_state (trkc_step nattrs en st op)) r). exact IH.
   Qed.
 
@@ -870,14 +937,16 @@ Section TrackerCb.
   Proof.
     intros R. apply reachable_any_sinv in R.
     assert (G : rc_deliv (trkc_step nattrs en st op) = trkc_deliver en (t_broker st) (rc_calls (trkc_step nattrs en st op))).
-    { destruct op as [now msg ts|now|m1|ev cb|ev cb|newttl|]; simpl; try reflexivity.
+    { destruct op as [now msg ts|now|m1|ev cb|ev cb|now msg ts|newttl|]; simpl; try reflexivity.
       - destruct (update_c en st now msg ts R) as [[_ E]|(_ & I2 & E)]; rewrite E; simpl; [reflexivity|].
         destruct (after_insert_cfg st (m_mmsi msg) (trk_msg_to_track nattrs msg ts now)) as (_ & _ & Eb & _).
         destruct (snd (brkc_propagate en (t_broker st) _ _)) eqn:EP; simpl; [|now rewrite app_nil_r].
         rewrite cleanup_deliv by (apply (s_nodup _ (sinv_after_insert _ _ _ I2))). now rewrite Eb.
       - apply cleanup_deliv. apply (s_nodup _ R).
       - pose proof (pop_track_c en st m1 (s_nodup _ R)) as P.
-        destruct (idict_get (t_tracks st) m1); simpl in P; rewrite P; simpl; [now rewrite app_nil_r | reflexivity]. }
+        destruct (idict_get (t_tracks st) m1); simpl in P; rewrite P; simpl; [now rewrite app_nil_r | reflexivity].
+      - destruct (insert_or_update_c en st (m_mmsi msg) (trk_msg_to_track nattrs msg ts now) (s_nodup _ R)) as [[_ E]|[_ E]];
+          rewrite E; simpl; [reflexivity | now rewrite app_nil_r]. }
     rewrite G. unfold trkc_deliver. apply flat_map_ext. intros [ev tr]. simpl. apply propagate_cut.
   Qed.
   (* ---------------------------------------------------------------- where an exception comes from *)
@@ -937,7 +1006,7 @@ Section TrackerCb.
     (rc_calls (trkc_step nattrs en st op) = [] /\ rc_deliv (trkc_step nattrs en st op) = [] /\ e = Py ValueError) \/
     raised_last en (rc_deliv (trkc_step nattrs en st op)) e.
   Proof.
-    intros R. apply reachable_any_sinv in R. destruct op as [now msg ts|now|m1|ev cb|ev cb|newttl|]; simpl; try discriminate.
+    intros R. apply reachable_any_sinv in R. destruct op as [now msg ts|now|m1|ev cb|ev cb|now msg ts|newttl|]; simpl; try discriminate.
     - destruct (update_c en st now msg ts R) as [[_ E]|(_ & I2 & E)]; rewrite E; simpl; [intros [= <-]; now left|].
       destruct (snd (brkc_propagate en (t_broker st) _ _)) as [|e0] eqn:EP; simpl.
       + intros H. right. apply raised_last_app. apply cleanup_exn; [|assumption]. apply (s_nodup _ (sinv_after_insert _ _ _ I2)).
@@ -946,6 +1015,12 @@ Section TrackerCb.
         repeat split; auto. intros X. unfold upd_event in X. destruct (idict_mem (t_tracks st) (m_mmsi msg)); discriminate.
     - intros H. right. apply cleanup_exn; [apply (s_nodup _ R) | assumption].
     - intros H. right. apply pop_track_exn; [apply (s_nodup _ R) | assumption].
+    - destruct (insert_or_update_c en st (m_mmsi msg) (trk_msg_to_track nattrs msg ts now) (s_nodup _ R)) as [[_ E]|[_ E]];
+        rewrite E; simpl; [intros [= <-]; now left|].
+      destruct (snd (brkc_propagate en (t_broker st) _ _)) as [|e0] eqn:EP; simpl; [discriminate|].
+      intros [= <-]. right. destruct (propagate_raise_last en _ _ _ _ EP) as (pre & cb & E1 & E2).
+      exists pre, cb, (upd_event st (m_mmsi msg)), (upd_result st (m_mmsi msg) (trk_msg_to_track nattrs msg ts now)).
+      repeat split; auto. intros X. unfold upd_event in X. destruct (idict_mem (t_tracks st) (m_mmsi msg)); discriminate.
   Qed.
 
   (* ================================================================================= 8. the quiet environment *)
@@ -1018,7 +1093,7 @@ Section TrackerCb.
     rc_deliv (trkc_step nattrs trk_env_quiet st op) = trk_deliver (t_broker st) (r_calls (trk_step nattrs st op)) /\
     (forall m, op = OpPop m -> rc_ret (trkc_step nattrs trk_env_quiet st op) = snd (trk_pop_track st m)).
   Proof.
-    destruct op as [now msg ts|now|m|ev cb|ev cb|newttl|]; simpl.
+    destruct op as [now msg ts|now|m|ev cb|ev cb|now msg ts|newttl|]; simpl.
     - unfold trkc_update, trk_update. pose proof (ensure_broker st (tr_lu (trk_msg_to_track nattrs msg ts now))) as B1.
       destruct (trk_ensure_timestamp_constraints st _) as [st1 [e|]]; simpl in *; [repeat split; discriminate|].
       destruct (insert_or_update_quiet st1 (m_mmsi msg) (trk_msg_to_track nattrs msg ts now)) as (E & B2). rewrite E.
@@ -1032,6 +1107,8 @@ Section TrackerCb.
       intros m' [= <-]. reflexivity.
     - repeat split; discriminate.
     - repeat split; discriminate.
+    - destruct (insert_or_update_quiet st (m_mmsi msg) (trk_msg_to_track nattrs msg ts now)) as (E & _). rewrite E.
+      destruct (trk_insert_or_update st _ _) as [[st2 calls] e]. simpl. repeat split; discriminate.
     - repeat split; discriminate.
     - repeat split; discriminate.
   Qed.
@@ -1047,9 +1124,9 @@ Section TrackerCb.
   (* every state of the model with quiet subscribers is a state the theorems of this file speak about *)
   Lemma reachable_old_any (st : tracker) : reachable nattrs st -> reachable_any st.
   Proof.
-    induction 1 as [ttl o|st op R IH]; [constructor|].
+    induction 1 as [ttl o|st op R IH OKop]; [constructor|].
     destruct (trkc_step_quiet st op) as (E1 & _). rewrite <- E1.
-    apply reach_any_step; [assumption | apply env_ok_quiet].
+    apply reach_any_step; [assumption | apply env_ok_quiet | assumption].
   Qed.
 End TrackerCb.
 
